@@ -82,7 +82,18 @@ class Solver:
             self.inc = None
             return "unknown", None
     def _oneshot(self, script):
+        """portfolio for queries the incremental process could not answer quickly: z3 (new) first, then cvc5 with the full limit"""
         self.stats["oneshot"] += 1
+        t0 = time.time()
+        try:
+            p = subprocess.run(["z3-new", "-in", "-T:%d" % max(1, self.tlimit // 2000)], input=script, capture_output=True, text=True, timeout=self.tlimit / 2000.0 + 5)
+            first = p.stdout.strip().split("\n")[0] if p.stdout.strip() else ""
+            if first in ("sat", "unsat") and "(error" not in p.stdout:
+                self.stats["z3"] = self.stats.get("z3", 0) + 1; self.stats["z3_s"] = self.stats.get("z3_s", 0) + time.time() - t0
+                return p.stdout
+        except (subprocess.TimeoutExpired, FileNotFoundError):
+            pass
+        self.stats["z3_fail_s"] = self.stats.get("z3_fail_s", 0) + time.time() - t0; t1 = time.time()
         try:
             p = subprocess.run(CVC5 + ["--tlimit=%d" % self.tlimit], input=script, capture_output=True, text=True, timeout=self.tlimit / 1000.0 + 10)
             return p.stdout
@@ -97,6 +108,7 @@ class Solver:
             self.stats["cached"] += 1; return r
         t = time.time()
         st, _ = self._inc_query(extra)
+        self.stats["inc_s"] = self.stats.get("inc_s", 0) + time.time() - t
         if st == "unknown":
             s = self.script(extra)
             out = self._oneshot(s)
